@@ -80,13 +80,18 @@ def mc_family(name):
 # ------------------------------------------------------------------------------------------------------
 
 def random_doc(rng, max_nodes=40, anim_styles=False, space=False, ruby=True, ruby_forms=False):
-  den = rng.choice([1, 1, 2, 3, 25, 1001])
+  den = rng.choice([1, 1, 2, 3, 25, 1001] * 6 + [10 ** 9 + 7])
   D = 2 * den                                  # document times are even ticks
   span = 10 * den                              # times within [0, 10 s)
+  fine = den > 10 ** 6                         # a grid finer than a nanosecond (times written at full double precision):
+  if fine:                                     # a handful of ticks only, the tick NUMBERS stay small
+    span = 30
 
   def t_opt(p_none=0.5):
     if rng.random() < p_none:
       return NONE_T
+    if fine:
+      return 2 * rng.randrange(0, span + 1)
     return 2 * rng.randrange(0, span + 1) if den <= 3 or rng.random() < 0.5 else 2 * den * rng.randrange(0, 10)
 
   nr = rng.choice([0, 0, 1, 2, 3])
@@ -225,12 +230,12 @@ def random_doc(rng, max_nodes=40, anim_styles=False, space=False, ruby=True, rub
   if rng.random() < 0.3:
     # the SAME (value-equal) animation step on several elements that begin at different times: each must be resolved
     # against its own element
-    shared = {"b": 2 * rng.randrange(0, 3 * den + 1), "e": t_opt(0.4), "v": "none"}
+    shared = {"b": 2 * rng.randrange(0, (3 * den if not fine else 9) + 1), "e": t_opt(0.4), "v": "none"}
     cands = [k for k in range(len(kind)) if kind[k] in ("p", "span", "div")]
     for k in rng.sample(cands, min(len(cands), rng.randint(2, 3))):
       anim[k] = anim[k] + [dict(shared)]
       if b[k] == NONE_T and rng.random() < 0.7:
-        b[k] = 2 * rng.randrange(1, 4 * den + 1)
+        b[k] = 2 * rng.randrange(1, (4 * den if not fine else 12) + 1)
   ad = {"n": len(kind), "kind": kind, "parent": parent, "b": b, "e": e, "reg": reg, "disp": disp, "anim": anim, "txt": txt,
         "nr": nr,
         "rb": [t_opt(0.7) for _ in range(nr)], "re": [t_opt(0.7) for _ in range(nr)],
@@ -288,7 +293,49 @@ def probe_times(ad, extra=()):
         pts.add(c + d)
   pts.add(0)
   pts.add(max(cands) + 3 if cands else 3)
-  return sorted(pts)
+  pts = sorted(pts)
+  if len(pts) > 90:
+    # a long document: a deterministic sample of its boundaries (first and last ones always), everything around them +- 1
+    import random as _r
+    rr = _r.Random(len(pts) * 7919 + ad["n"])
+    keep = set(pts[:6] + pts[-6:])
+    for i in rr.sample(range(1, len(pts) - 1), 26):
+      keep.update(pts[i - 1:i + 2])
+    pts = sorted(keep)
+  return pts
+
+
+def long_doc(rng, count=None):
+  """An ordinary LONG document: one division holding `count` (101..400) consecutive paragraphs (or one paragraph holding that
+  many consecutive spans), begin/end back to back with an occasional gap, the container itself beginning at 0 or later, zero to
+  two regions.  Sizes of this order are what real subtitle files have and what no bounded enumeration reaches."""
+  count = count or rng.choice([101, 130, 180, 260, 301, 400])
+  nr = rng.choice([0, 1, 2])
+  kind, parent, b, e, reg, disp, anim, txt = [], [], [], [], [], [], [], []
+
+  def add(k, p, bb=NONE_T, ee=NONE_T, rg=0, tx=0):
+    kind.append(k); parent.append(p); b.append(bb); e.append(ee); reg.append(rg); disp.append(""); anim.append([]); txt.append(tx)
+    return len(kind)
+  body = add("body", 0, rg=(1 if nr else 0))
+  off = rng.choice([0, 0, 2, 10, 60])
+  div = add("div", body, bb=(off if off else NONE_T))
+  level = rng.choice(["p", "p", "span"])
+  holder = div if level == "p" else add("p", div, bb=rng.choice([NONE_T, 4]))
+  t = 0
+  for i in range(count):
+    d = 2 * rng.randint(1, 3)
+    if level == "p":
+      pp = add("p", holder, bb=t, ee=t + d, rg=(rng.randint(1, nr) if nr == 2 and rng.random() < 0.2 else 0))
+      sp = add("span", pp)
+    else:
+      sp = add("span", holder, bb=t, ee=t + d)
+    add("text", sp, tx=1)
+    if rng.random() < 0.1:
+      add("br", sp)
+    t += d + (2 if rng.random() < 0.15 else 0)
+  return {"n": len(kind), "kind": kind, "parent": parent, "b": b, "e": e, "reg": reg, "disp": disp, "anim": anim, "txt": txt,
+          "nr": nr, "rb": [NONE_T] * nr, "re": [NONE_T] * nr, "rdisp": [""] * nr, "ranim": [[] for _ in range(nr)],
+          "rbg": [rng.choice(["always", "whenActive"]) for _ in range(nr)], "idisp": "", "D": 2}
 
 
 def step_boundaries(ad):
